@@ -22,14 +22,14 @@ def P(level_text, decides, not_decided, technique, level_note, **kw):
 PROPS = {
     'C01': P(
         'Proof of the primitive evaluation steps the big-step semantics of core programs is made of (arithmetic/comparison/logical operators on every operand kind over the full machine domain, DATA segment push/pop, stable partition of DATA statements, jump-target resolution); not a proof of whole programs.',
-        'Kani: per (operator x operand kind) the VM operator returns the reference result or the prescribed error for all payloads; Verus: DataSegment::pop returns values in push order and OutOfData exactly at the end; label resolution (shared with C15).',
+        'Kani (variant_arith): per operator x operand-kind pair the Variant operator returns the reference result or the prescribed error for all payloads; Verus (handlers): A := op(A,B) with the other registers unchanged; DataSegment::pop returns values in push order and OutOfData exactly at the end; stable partition of DATA statements; label resolution (shared with C15).',
         'that the generator emits the right instruction sequence per statement; composition of nested constructs; the fetch-execute loop as a whole; determinism of a whole run',
         'Kani full-domain operator harnesses + Verus contracts on DATA segment / label resolver',
         'whole-program composition (parser, linter, generator, dispatch loop) is outside every contract; floating-point results compared bit-exactly with the IEEE operation in the wider operand format'),
     'C03': P(
         'Proof (Verus, unbounded) of the activation-record / memory-block structure that makes callee locals fresh per activation, STATIC blocks persistent and arguments evaluated in the caller; by-ref write-back and SHARED resolution are not under contract.',
-        'Context::{begin_collecting_arguments, stop_collecting_arguments(_static), pop, ...} preserve a well-formedness invariant over (memory_blocks, states, static_memory_blocks) with ghost block identities; IndexedMap insert keeps positional indices.',
-        'by-ref write-back order and function-result stashing (handlers reach Variables through HashMap); generator-side stash/un-stash pairing and casts of by-value arguments; SHARED resolution at code generation',
+        'Context (22 functions) preserves a well-formedness invariant over (memory_blocks, states, static_memory_blocks) incl. exact reference counts; fresh block per activation, STATIC block re-used, pop renumbers stored indices; IndexedMap insert keeps positional indices; generator un-stash handles by-ref arguments left to right; VM by-ref queue is FIFO; function-result stash/un-stash; default function result per type.',
+        'the order of the stash side (.enumerate() loop: assumed); that a store through the reference returned by resolve_name_ptr_mut lands in the denoted variable (opaque stores); SHARED resolution in the converter; re-evaluation of index expressions at write-back',
         'Verus data-structure invariant with ghost block identities on the real Context/MemoryBlock/IndexedMap methods',
         'Variables/Arguments are opaque (external_body); HashMap key model for ScopeName assumed'),
     'C04': P(
@@ -40,9 +40,9 @@ PROPS = {
         'array length <= i32::MAX elements and bounds in INTEGER range are stated preconditions (type invariant of VArray established by VArray::new)'),
     'C05': P(
         'Proof of the address arithmetic behind RESUME / RESUME NEXT (Verus, unbounded), totality and values of run-time error codes (Kani, enum-complete), and the GOSUB/RETURN stack step; the dispatch loop as a whole is not under contract.',
-        'NearestStatementFinder::find_current/find_next return max{s<=a} / min{s>a} over ascending statement addresses; RuntimeError::get_code is total and returns the documented code for every error value incl. every From conversion; RETURN pops exactly one address, error 3 when none.',
-        'the dispatch loop as a whole; handler-context push/pop across a failing statement; FOR register frames skipped by GOTO',
-        'Verus contract on the binary-search finder + Kani enum-complete harnesses on error codes',
+        'Verus (dispatch): every control arm of the real Interpreter::interpret_one (GOSUB/RETURN/GOTO/ON ERROR/RESUME*/PushStack/PopStack/built-in failure) and the per-iteration facts of the dispatch loop, over a ghost view of the machine; NearestStatementFinder = max{s<=a} / min{s>a}; get_code total with the documented codes; the main module ends with Halt marked by the last statement address.',
+        'FOR register frames skipped by GOTO/EXIT (path-sensitive); the run-time stack preconditions of interpret are declared hypotheses (H-dyn, H-ctx)',
+        'Verus contracts on the extracted interpret_one/interpret/handlers/finder + Kani enum-complete harnesses on error codes',
         '<[usize]>::binary_search assumed to satisfy its std-documented contract (assume_specification); strictly ascending statement addresses are a caller obligation recorded under C15'),
     'C06': P(
         'Proof (Kani, full machine domain of every scalar payload, loop-free) that numeric conversions and arithmetic produce a value of the target type and range or raise Overflow.',
